@@ -419,6 +419,14 @@ impl Writer for ProtobufWriter<'_> {
 
     #[inline]
     fn write_null<C: null::Constraint>(&mut self, _value: &Null) -> Result<(), Self::Error> {
+        // NULL is an (always empty) bytes field, like in the generated .proto file: it takes a field
+        // number and is written like an empty OCTET STRING. Otherwise a present OPTIONAL NULL shifts
+        // the numbers of all following fields, and neither a NULL variant of a CHOICE nor the
+        // elements of a SEQUENCE OF NULL are visible to the reader.
+        let tag = self.state.tag_counter + 1;
+        self.buffer.write_tagged_bytes(tag, &[])?;
+        self.state.tag_counter = tag;
+        self.state.format = Some(Format::LengthDelimited);
         Ok(())
     }
 }
